@@ -265,7 +265,8 @@ Lemma step_tcp_ok c s fc d ms r :
   step c s (EData fc d) = wb fc r (handle_msgs c fc s ms).
 Proof.
   intros [Hp Hc] Ht Hu. unfold DnsLayer.step. rewrite Hc, Hp. unfold unpack_message. rewrite Ht.
-  unfold buf_of in Hu. rewrite Hu. apply handle_msgs_buf.
+  change (unpack_tcp unpack ((if fc then s_req_buf s else s_resp_buf s) ++ d)) with (utcp (buf_of s fc ++ d)).
+  rewrite Hu. apply handle_msgs_buf.
 Qed.
 
 Lemma working_after c fc s ms b : working s -> working (fst (wb fc b (handle_msgs c fc s ms))).
@@ -321,9 +322,9 @@ Proof.
       by (cbn [concat]; rewrite <- app_assoc; exact Hu).
     pose proof (IH ((a ++ b) :: tl) s ms r Hl' Hw Ht Hu' rest) as IH'.
     cbn [map app concat] in IH'. rewrite <- app_assoc in IH'. rewrite <- IH'.
-    rewrite app_assoc in Hu.
-    destruct (utcp_prefix_ok unpack _ _ _ _ Hu) as (m1 & r1 & m2 & H1 & _ & _).
-    rewrite <- app_assoc in H1.
+    assert (Hu2 : utcp ((buf_of s fc ++ a ++ b) ++ concat tl) = ROk ms r)
+      by (rewrite <- !app_assoc; exact Hu).
+    destruct (utcp_prefix_ok unpack _ _ _ _ Hu2) as (m1 & r1 & m2 & H1 & _ & _).
     apply (step_split c s fc a b m1 r1 Hw Ht H1).
 Qed.
 
@@ -341,7 +342,8 @@ Lemma step_tcp_err c s fc d :
   snd (step c s (EData fc d)) = [OClose fc] /\ s_phase (fst (step c s (EData fc d))) = PDone.
 Proof.
   intros [Hp Hc] Ht Hu. unfold DnsLayer.step. rewrite Hc, Hp. unfold unpack_message. rewrite Ht.
-  unfold buf_of in Hu. rewrite Hu. split; reflexivity.
+  change (unpack_tcp unpack ((if fc then s_req_buf s else s_resp_buf s) ++ d)) with (utcp (buf_of s fc ++ d)).
+  rewrite Hu. split; reflexivity.
 Qed.
 
 Lemma step_udp_err c s fc d :
